@@ -1,6 +1,7 @@
 //! Reference models, written from the RFC text, independent of `pgp::` parsing/serialisation.
 pub mod armor;
 pub mod canon;
+pub mod codec;
 pub mod crypto;
 pub mod csf;
 pub mod frame;
